@@ -61,7 +61,7 @@ def run_m(text, timeout=600):
 
 
 def make_scratch():
-    """ini files (their text comes from the model), a directory with three entries, a tiny shared library"""
+    """ini files (their text comes from the model), a directory with three entries (a sub-directory, a file, a dangling symbolic link), a tiny shared library"""
     d = tempfile.mkdtemp(prefix="pvres-%d-" % os.getpid(), dir=pv.CACHE)
     rc, lines, err = run_m("inifile 1\ninifile 2\n")
     if rc != 0 or len(lines) != 2:
@@ -70,8 +70,9 @@ def make_scratch():
         with open(os.path.join(d, "ini%d.ini" % i), "w") as f:
             f.write(t.replace("|", "\n") + "\n")
     os.makedirs(os.path.join(d, "d", "sub"))
-    for n in ("a.txt", "b.txt"):
-        open(os.path.join(d, "d", n), "w").write(n)
+    open(os.path.join(d, "d", "a.txt"), "w").write("a.txt")
+    # a dangling symbolic link: readdir returns it but stat fails (the "cannot examine the entry" path)
+    os.symlink("no-such-target", os.path.join(d, "d", "b.lnk"))
     src = os.path.join(d, "tiny.c")
     open(src, "w").write("int tiny_answer (void) { return 42; }\n")
     rc, out = pv.sh(["gcc", "-shared", "-fPIC", "-o", os.path.join(d, "libtiny.so"), src])
